@@ -6,6 +6,7 @@ From HV Require Import Prelude Tracts BpText C05_Model C05_Check.
 Section RoundTrip.
 Variable parse_int parse_flt : str -> res Z.
 Variable fmt_int fmt_flt : Z -> str.
+Variable samples : option (list str).   (* the subset handed to read(samples); None = all *)
 
 Notation iter_step := (iter_step parse_int parse_flt).
 Notation iter_run := (iter_run parse_int parse_flt).
@@ -41,16 +42,16 @@ Proof.
 Qed.
 
 Lemma iter_run_app ls1 ls2 st :
-  iter_run None (ls1 ++ ls2) st = bind (iter_run None ls1 st) (iter_run None ls2).
+  iter_run samples (ls1 ++ ls2) st = bind (iter_run samples ls1 st) (iter_run samples ls2).
 Proof.
   revert st. induction ls1 as [|l r IH]; intros st; cbn [app C05_Model.iter_run]; [reflexivity|].
-  destruct (iter_step None st l) as [st1|k]; cbn [bind]; [apply IH|reflexivity].
+  destruct (iter_step samples st l) as [st1|k]; cbn [bind]; [apply IH|reflexivity].
 Qed.
 
 (* block lines are appended to the current strand *)
 Lemma run_blocks (second : bool) bs : forall n r0 r1 out,
   Forall wf_blk bs ->
-  iter_run None (map fmt_blk bs) (mkist (Some (n, r0, r1)) (SInt second) out) =
+  iter_run samples (map fmt_blk bs) (mkist (Some (n, r0, r1)) (SInt second) out) =
   Ok (if second then mkist (Some (n, r0, r1 ++ map raw_of bs)) (SInt true) out
       else mkist (Some (n, r0 ++ map raw_of bs, r1)) (SInt false) out).
 Proof.
@@ -69,8 +70,8 @@ Proof. intros Hn Hs. destruct n as [|x n]; [exact Hs|exact Hn]. Qed.
 
 Lemma step_hdr1 n st :
   first_char_is c_hash n = false ->
-  iter_step None st [n ++ sfx_1] =
-  bind (yield_cur None st) (fun out => Ok (mkist (Some (n, [], [])) (SInt false) out)).
+  iter_step samples st [n ++ sfx_1] =
+  bind (yield_cur samples st) (fun out => Ok (mkist (Some (n, [], [])) (SInt false) out)).
 Proof.
   intros Hn. unfold C05_Model.iter_step. rewrite (hash_hdr n sfx_1 Hn eq_refl).
   unfold sfx_1. rewrite after_last_sfx by (unfold c_1, c_us; lia).
@@ -79,7 +80,7 @@ Qed.
 
 Lemma step_hdr2 n st :
   first_char_is c_hash n = false ->
-  iter_step None st [n ++ sfx_2] = Ok (mkist (i_cur st) (SInt true) (i_out st)).
+  iter_step samples st [n ++ sfx_2] = Ok (mkist (i_cur st) (SInt true) (i_out st)).
 Proof.
   intros Hn. unfold C05_Model.iter_step. rewrite (hash_hdr n sfx_2 Hn eq_refl).
   unfold sfx_2. rewrite after_last_sfx by (unfold c_2, c_us; lia). reflexivity.
@@ -94,27 +95,34 @@ Definition raw_pending (p : pending) : option (str * list rblk * list rblk) :=
   end.
 
 Definition flush (p : pending) : ctable :=
-  match p with Some (n, b0, b1) => [(n, (b0, b1))] | None => [] end.
+  match p with
+  | Some (n, b0, b1) => if selected samples n then [(n, (b0, b1))] else []
+  | None => []
+  end.
 
 Definition wf_pending (p : pending) : Prop :=
   match p with Some (n, b0, b1) => Forall wf_blk b0 /\ Forall wf_blk b1 | None => True end.
 
+(* the samples read(samples) keeps *)
+Definition keep (d : ctable) : ctable := filter (fun sb => selected samples (fst sb)) d.
+
 Lemma yield_pending p strand out :
-  wf_pending p -> yield_cur None (mkist (raw_pending p) strand out) = Ok (out ++ flush p).
+  wf_pending p -> yield_cur samples (mkist (raw_pending p) strand out) = Ok (out ++ flush p).
 Proof.
   destruct p as [[[n b0] b1]|]; cbn [raw_pending flush wf_pending]; intros H.
-  - destruct H as [H0 H1]. unfold C05_Model.yield_cur. cbn [i_cur i_out selected].
+  - destruct H as [H0 H1]. unfold C05_Model.yield_cur. cbn [i_cur i_out].
+    destruct (selected samples n); [|rewrite app_nil_r; reflexivity].
     rewrite (conv_raws b0 H0). cbn [bind]. rewrite (conv_raws b1 H1). reflexivity.
   - unfold C05_Model.yield_cur. cbn [i_cur i_out]. rewrite app_nil_r. reflexivity.
 Qed.
 
 Lemma iter_write d : forall p strand out,
   Forall wf_sample d -> wf_pending p ->
-  bind (iter_run None (bp_write d) (mkist (raw_pending p) strand out)) (yield_cur None)
-  = Ok (out ++ flush p ++ d).
+  bind (iter_run samples (bp_write d) (mkist (raw_pending p) strand out)) (yield_cur samples)
+  = Ok (out ++ flush p ++ keep d).
 Proof.
   induction d as [|[n [b0 b1]] d IH]; intros p strand out Hd Hp.
-  - cbn [C05_Model.bp_write flat_map C05_Model.iter_run bind]. rewrite app_nil_r. apply yield_pending. exact Hp.
+  - cbn [C05_Model.bp_write flat_map C05_Model.iter_run bind keep filter]. rewrite app_nil_r. apply yield_pending. exact Hp.
   - inversion Hd as [|? ? Hs Hd']; subst. destruct Hs as [Hn [H0 H1]]. cbn [fst snd] in Hn, H0, H1.
     unfold C05_Model.bp_write. cbn [flat_map fst snd]. fold (bp_write d).
     cbn [app C05_Model.iter_run]. rewrite (step_hdr1 n _ Hn). rewrite (yield_pending p strand out Hp). cbn [bind].
@@ -123,12 +131,28 @@ Proof.
     rewrite iter_run_app. rewrite (run_blocks true b1) by exact H1. cbn [bind app].
     change (Some (n, map raw_of b0, map raw_of b1)) with (raw_pending (Some (n, b0, b1))).
     rewrite (IH (Some (n, b0, b1)) (SInt true) (out ++ flush p)); [|exact Hd'|split; assumption].
-    cbn [flush]. rewrite <- !app_assoc. reflexivity.
+    cbn [flush keep filter fst]. destruct (selected samples n); cbn [app]; rewrite <- !app_assoc; reflexivity.
 Qed.
 
-Lemma bp_iter_write d : Forall wf_sample d -> bp_iter None (bp_write d) = Ok d.
+Lemma bp_iter_write d : Forall wf_sample d -> bp_iter samples (bp_write d) = Ok (keep d).
 Proof.
   intros Hd. unfold C05_Model.bp_iter. apply (iter_write d None SUnbound [] Hd I).
+Qed.
+
+(* a line whose first token starts with '#' changes nothing, wherever it stands *)
+Lemma iter_comment ls1 c rest ls2 st :
+  first_char_is c_hash c = true ->
+  iter_run samples (ls1 ++ (c :: rest) :: ls2) st = iter_run samples (ls1 ++ ls2) st.
+Proof.
+  intros Hc. rewrite !iter_run_app. destruct (iter_run samples ls1 st) as [st1|k]; cbn [bind]; [|reflexivity].
+  cbn [C05_Model.iter_run]. unfold C05_Model.iter_step at 1. rewrite Hc. reflexivity.
+Qed.
+
+Theorem comments_ignored ls1 c rest ls2 :
+  first_char_is c_hash c = true ->
+  bp_read samples (ls1 ++ (c :: rest) :: ls2) = bp_read samples (ls1 ++ ls2).
+Proof.
+  intros Hc. unfold C05_Model.bp_read, C05_Model.bp_iter. rewrite (iter_comment ls1 c rest ls2 _ Hc). reflexivity.
 Qed.
 
 (* dict(...) of pairs with distinct keys keeps them all, in order *)
@@ -153,15 +177,37 @@ Proof.
   intros Hn. apply (H [] Hn).
 Qed.
 
-(* Writing breakpoints and reading them back yields identical samples, order, labels,
-   chromosomes, positions and centimorgan values. *)
-Theorem bp_roundtrip d :
-  Forall wf_sample d -> NoDup (map fst d) -> bp_read None (bp_write d) = Ok d.
+Lemma NoDup_keys_filter {V} (g : str * V -> bool) (l : list (str * V)) :
+  NoDup (map fst l) -> NoDup (map fst (filter g l)).
+Proof.
+  induction l as [|a r IH]; cbn [map filter]; intros H; [constructor|].
+  inversion H as [|? ? Ha Hr]; subst. destruct (g a); cbn [map]; [|apply IH; exact Hr].
+  constructor; [|apply IH; exact Hr]. intros Hin. apply Ha. apply in_map_iff in Hin.
+  destruct Hin as [x [Hx Hin]]. apply filter_In in Hin. rewrite <- Hx. apply in_map. tauto.
+Qed.
+
+(* Reading what write() wrote, restricted to a set of samples, yields exactly the requested
+   samples that exist, in file order, with identical labels, chromosomes, positions, cM. *)
+Theorem bp_roundtrip_subset d :
+  Forall wf_sample d -> NoDup (map fst d) -> bp_read samples (bp_write d) = Ok (keep d).
 Proof.
   intros Hd Hn. unfold C05_Model.bp_read. rewrite (bp_iter_write d Hd). cbn [bind].
-  rewrite (dict_of_list_nodup d Hn). reflexivity.
+  rewrite dict_of_list_nodup; [reflexivity|]. apply NoDup_keys_filter. exact Hn.
 Qed.
 End RoundTrip.
+
+(* Writing breakpoints and reading them back yields identical samples, order, labels,
+   chromosomes, positions and centimorgan values. *)
+Theorem bp_roundtrip parse_int parse_flt fmt_int fmt_flt d :
+  Forall (wf_sample parse_int parse_flt fmt_int fmt_flt) d -> NoDup (map fst d) ->
+  bp_read parse_int parse_flt None (bp_write fmt_int fmt_flt d) = Ok d.
+Proof.
+  intros Hd Hn. rewrite (bp_roundtrip_subset parse_int parse_flt fmt_int fmt_flt None d Hd Hn).
+  f_equal. unfold keep. cbn [selected]. induction d as [|a r IH]; cbn [filter]; [reflexivity|].
+  f_equal. apply IH.
+  - inversion Hd; assumption.
+  - inversion Hn; assumption.
+Qed.
 
 (* the hypotheses are satisfiable: a toy codec (a number is written as the one-character
    token holding it) and a two-sample table with underscores in a name *)
